@@ -9,12 +9,12 @@
 /// Check for `assertion`: "assertion failed: OFFSET.load(Relaxed) == d"
 
 #[test]
-fn kani_concrete_playback_c05_p_one_way_offset_4225645913328204607() {
+fn kani_concrete_playback_c05_p_one_way_offset_2609461261433029768() {
     let concrete_vals: Vec<Vec<u8>> = vec![
-        // 2305843009213693952ul
-        vec![0, 0, 0, 0, 0, 0, 0, 32],
-        // 6917529027641081858
-        vec![2, 0, 0, 0, 0, 0, 0, 96],
+        // 17293822568028962816ul
+        vec![0, 0, 0, 192, 255, 255, 255, 239],
+        // -8075235527860551683
+        vec![253, 255, 65, 100, 18, 0, 239, 143],
         // -1
         vec![255],
     ];
@@ -22,58 +22,12 @@ fn kani_concrete_playback_c05_p_one_way_offset_4225645913328204607() {
 }
 
 /* native run output:
-new(10, 1, 2, 3)));
-    | --------------------------------------------------------------------------------------------------- in this macro invocation
-    |
-    = note: `#[warn(unused_comparisons)]` on by default
-    = note: this warning originates in the macro `from_str_harness` (in Nightly builds, run with -Z macro-backtrace for more info)
+error: unexpected argument '--no-assertion-reach-checks' found
 
-warning: comparison is useless due to type limits
-   --> /verif/kani/ntp_proto/ipfilter.rs:213:34
-    |
-213 |                       assert!(m >= $lo && m <= $hi);
-    |  __________________________________^
-214 | |                     assert!(sn.mask as u16 == m - $sub);
-215 | |                     assert!(sn.addr == $want);
-216 | |                 }
-217 | |                 Err(_) => { assert!(m < $lo || m > $hi) }
-    | |_______________________________________^
-...
-224 |   from_str_harness!(c31_tb_from_str_v4, "10.1.2.3", 0, 32, 0, IpAddr::V4(Ipv4Addr::new(10, 1, 2, 3)));
-    |   --------------------------------------------------------------------------------------------------- in this macro invocation
-    |
-    = note: this warning originates in the macro `from_str_harness` (in Nightly builds, run with -Z macro-backtrace for more info)
+  tip: to pass '--no-assertion-reach-checks' as a value, use '-- --no-assertion-reach-checks'
 
-warning: comparison is useless due to type limits
-   --> /verif/kani/ntp_proto/ipfilter.rs:213:29
-    |
-213 |                     assert!(m >= $lo && m <= $hi);
-    |                             ^^^^^^^^
-...
-225 | from_str_harness!(c31_tb_from_str_v6, "2001:db8::1", 0, 128, 0, IpAddr::V6(Ipv6Addr::new(0x2001, 0xdb8, 0, 0, 0, 0, 0, 1)));
-    | --------------------------------------------------------------------------------------------------------------------------- in this macro invocation
-    |
-    = note: this warning originates in the macro `from_str_harness` (in Nightly builds, run with -Z macro-backtrace for more info)
+Usage: cargo-kani playback --unstable <UNSTABLE_FEATURE> [-- [TEST_ARGS]...]
 
-warning: comparison is useless due to type limits
-   --> /verif/kani/ntp_proto/ipfilter.rs:213:34
-    |
-213 |                       assert!(m >= $lo && m <= $hi);
-    |  __________________________________^
-214 | |                     assert!(sn.mask as u16 == m - $sub);
-215 | |                     assert!(sn.addr == $want);
-216 | |                 }
-217 | |                 Err(_) => { assert!(m < $lo || m > $hi) }
-    | |_______________________________________^
-...
-225 |   from_str_harness!(c31_tb_from_str_v6, "2001:db8::1", 0, 128, 0, IpAddr::V6(Ipv6Addr::new(0x2001, 0xdb8, 0, 0, 0, 0, 0, 1)));
-    |   --------------------------------------------------------------------------------------------------------------------------- in this macro invocation
-    |
-    = note: this warning originates in the macro `from_str_harness` (in Nightly builds, run with -Z macro-backtrace for more info)
-
-warning: `ntp-proto` (lib) generated 5 warnings
-For more information about this error, try `rustc --explain E0428`.
-error: could not compile `ntp-proto` (lib test) due to 1 previous error
-error: /root/.kani/kani-0.68.0/toolchain/bin/cargo exited with status exit status: 101
+For more information, try '--help'.
 
 */
